@@ -42,6 +42,7 @@ def drive : List String → String
       let head := carrier.startsWith "Resolve"
       observe (hops S C compactJSON genTable stdMsg head n e)
     | _, _ => "bad-op"
+  | "hopbig" :: _ => "skip"     -- error bodies beyond the client's size limit: not modelled
   | _ => "bad-op"
 
 end OciModel.Driver.Err
